@@ -119,7 +119,10 @@ def reentry(ctx, fs, world, step):
     after = _snapshot_results(fs)
     with ctx.guard():
         for k in ("logZ", "err", "samples", "weights", "n"):
-            if before[k] != after[k]:
+            same = before[k] == after[k]
+            if not same and k in ("logZ", "err"):
+                same = bool(np.isnan(before[k]) and np.isnan(after[k]))
+            if not same:
                 ctx.violation("C15-rerun-changed", {"field": k, "step": step,
                                                     "before": before[k] if k in ("logZ", "err", "n") else "...",
                                                     "after": after[k] if k in ("logZ", "err", "n") else "..."})
